@@ -9,7 +9,7 @@ import gradops_lib as gl
 from props import C18 as c18
 
 ID = 'C17'
-GEN_SECTIONS = ['GenGradOps', 'FP_gradops17']
+GEN_SECTIONS = ['GenGradOps', 'FP_gradops17', 'GenAddGrad', 'FP_addgrad']
 COQ_TARGETS = ['Props/C17.vo']
 EXTRACT_TARGETS = ['Extract/Ex_gradops.vo']
 RUNNER = 'gradops'
@@ -17,18 +17,23 @@ LEVEL = 'proof'
 MANIFEST = {
     'text': "Theorems (Coq, all event lists, all rational c and s, all three axes): with (a0,a1) the two axes that remain "
             "after removing the rotation axis from [x,y,z], the events returned by rotate render, at every time, to "
-            "(c*G_a0 - s*G_a1, s*G_a0 + c*G_a1) when no component is below the 1e-6*max_mag threshold, and within "
-            "(number of components)*threshold of it otherwise; events on the axis and non-gradient events are returned "
-            "unchanged and first; rotating by (c,s) then (c,-s) with c*c+s*s=1 restores the waveforms; the squared norm is "
-            "preserved. add_gradients enters as a function whose rendering is the pointwise sum (property C16). The "
-            "sign/target tables and the 1e-6 factor are re-read from rotate.py on every run; the extracted model is run "
-            "against rotate() on mixed event lists for all axes and special/random angles with the code's cos/sin as exact "
-            "doubles.",
-    'note': 'Trusted: Coq kernel; translator patterns for rotate.py; extraction + driver; add_gradients = pointwise sum is '
-            'the hypothesis AddIsSum (property C16; at raster centres when an arbitrary gradient is involved); binary64 '
-            'arithmetic outside the model; non-modification of the inputs checked on the implementation only.',
-    'technique': 'Rocq/Coq proof over a Gallina model (list induction, piecewise-linear algebra) + extraction-based '
-                 'correspondence + exact-Fraction rendering oracle',
+            "(c*G_a0 - s*G_a1, s*G_a0 + c*G_a1) when no component is below the 1e-6*max_mag threshold; for ALL inputs "
+            "(rotate_matrix_up_to_drop) the pair differs from that by at most the budget of the dropped components: "
+            "(number dropped)*threshold for trapezoids/extended trapezoids, max(threshold,|first|,|last|) per dropped "
+            "arbitrary shape; events on the axis and non-gradient events are returned unchanged and first; rotating by "
+            "(c,s) then (c,-s) with c*c+s*s=1 restores the waveforms; the squared norm is preserved. add_gradients is "
+            "either a function that is the pointwise sum (hypothesis = property C16) or, for trapezoid/extended-trapezoid "
+            "inputs one block can hold, the MODEL of add_gradients of property C16 (no hypothesis left, +1e-9 from its "
+            "equal-timing path). The sign/target tables and the 1e-6 factor are re-read from rotate.py on every run; the "
+            "extracted model (also with the C16 add_gradients model inside) is run against rotate() on mixed event lists "
+            "for all axes and special/random angles with the code's cos/sin as exact doubles, with the system passed "
+            "explicitly or through the library default.",
+    'note': 'Trusted: Coq kernel; translator patterns for rotate.py; extraction + driver; for raster-sampled (arbitrary) '
+            'inputs add_gradients = pointwise sum at raster centres is used as hypothesis (C16_add_raster_path_sum_at_'
+            'centres is not threaded through); binary64 arithmetic outside the model; non-modification of the inputs '
+            'checked on the implementation only.',
+    'technique': 'Rocq/Coq proof over a Gallina model (list induction, piecewise-linear algebra, bridge to the C16 model) + '
+                 'extraction-based correspondence + exact-Fraction rendering oracle',
 }
 BUDGET = {'quick': 80, 'thorough': 1500}
 MISMATCH_BUDGET = 0.0
@@ -38,7 +43,9 @@ RULE = ('event lists with 0-2 gradient events per channel (trapezoid, triangle, 
         'RF, ADC, delay and label events in random order; axes x, y, z; angles 0, +-pi/2, pi, tiny, random. Oracle: exact '
         'rendering of inputs and outputs at corner times, +-raster/8, midpoints (raster centres when an arbitrary gradient '
         'is summed with others): matrix, bypass identity, drop allowance, inverse rotation, norm; input snapshots. Model: '
-        'classification, scaled pieces, threshold and first elimination compared piece-wise with the returned events. '
+        'classification, scaled pieces, threshold and first elimination compared piece-wise with the returned events; '
+        'full rotate with the C16 add_gradients model compared event by event (time-boxed, smallest cases first); '
+        'equally shaped trapezoids with equal/different delays; system passed explicitly or via Opts.set_as_default. '
         'non-trivial = at least one gradient was rotated')
 TRUSTED = ['binary64 arithmetic and np.cos/np.sin are outside the model (cos/sin are fed to the model as exact doubles)',
            'add_gradients is used as "pointwise sum" (property C16), exactly so only at raster centres for arbitrary inputs']
@@ -54,7 +61,8 @@ def gen_case(rng):
     sysd = dict(sysd, max_grad=c18.MAXG * 1000, max_slew=c18.MAXS * 10000)   # limits are C04's subject
     evs = []
     with_arb = rng.random() < 0.3
-    same_timing = rng.random() < 0.2
+    same_timing = rng.random() < 0.3
+    same_delay = rng.random() < 0.4
     base = c18.gen_trap(rng, sysd)
     single = rng.random() < 0.12          # one gradient event in total: may start/end away from zero
     only = rng.choice(gl.CHN)
@@ -65,7 +73,10 @@ def gen_case(rng):
         for _ in range(n):
             k = rng.random()
             if same_timing:
+                # equally shaped trapezoids (the "same timing" fast path of add_gradients), equal or different delays
                 g = dict(base, amp=c18.rnd_amp(rng))
+                if same_delay is False:
+                    g['delay'] = rng.randint(0, 9) * sysd['raster']
             elif k < 0.45:
                 g = c18.gen_trap(rng, sysd)
             elif k < 0.8 or not with_arb:
@@ -89,7 +100,10 @@ def gen_case(rng):
     if rng.random() < 0.1:
         # a component just around the elimination threshold
         angle = rng.choice([1e-6, 0.99e-6, 1.01e-6, math.pi / 2 - 1e-6, -1e-6])
-    return {'sys': sysd, 'events': evs, 'angle': angle, 'axis': rng.choice(gl.CHN)}
+    case = {'sys': sysd, 'events': evs, 'angle': angle, 'axis': rng.choice(gl.CHN)}
+    if rng.random() < 0.15:
+        case['default_sys'] = True      # rotate() called without a system after Opts.set_as_default()
+    return case
 
 
 def build(d, system):
@@ -218,7 +232,7 @@ def run_rotate(ctx, cases):
         ang = case['angle']
         c, s = float(np.cos(ang)), float(np.sin(ang))
         try:
-            out = pp.rotate(*evs, angle=ang, axis=case['axis'], system=system)
+            out = gl.call_with_default(system, case.get('default_sys'), pp.rotate, *evs, angle=ang, axis=case['axis'])
             err = None
         except Exception as e:
             out, err = None, e
@@ -227,6 +241,8 @@ def run_rotate(ctx, cases):
         ctx.count('rotate.axis.' + case['axis'])
         ctx.count('rotate.ngrad.%d' % ngr)
         ctx.count('rotate.angle.' + ('special' if ang in SPECIAL else 'random'))
+        if case.get('default_sys'):
+            ctx.count('rotate.system_from_library_default')
         if err is not None:
             ctx.fail('C17/raises', case, {'exception': repr(err)})
             continue
@@ -261,7 +277,7 @@ def run_rotate(ctx, cases):
             # inverse rotation restores the waveforms
             nb = info['nb']
             try:
-                back = pp.rotate(*out, angle=-ang, axis=case['axis'], system=system)
+                back = gl.call_with_default(system, case.get('default_sys'), pp.rotate, *out, angle=-ang, axis=case['axis'])
             except Exception as e:
                 ctx.fail('C17/inverse-raises', case, {'exception': repr(e)})
                 continue
@@ -290,10 +306,11 @@ def run_rotate(ctx, cases):
             args = '%s %s %d %d %s' % (qtok(F(c)), qtok(F(s)), gl.CH[case['axis']], len(evs), ' '.join(toks))
             lines.append('go.rotpre ' + args)
             lines.append('go.rotate1 ' + args)
-            keep.append((case, evs, out, info))
+            keep.append((case, evs, out, info, 'go.rotatec16 ' + gl.enc_sys(system) + ' ' + args))
     if keep and ctx.model_available:
         outs = ctx.model(lines)
-        for j, (case, evs, out, info) in enumerate(keep):
+        c16_jobs = []
+        for j, (case, evs, out, info, c16_line) in enumerate(keep):
             raster = case['sys']['raster']
             t = Toks(outs[2 * j])
             if t.next() != 'OK':
@@ -348,32 +365,79 @@ def run_rotate(ctx, cases):
                 ctx.mismatch('rotpre', case, bad)
                 continue
             # full rotate with add = "copy of the single gradient": event-by-event comparison
-            t2 = Toks(outs[2 * j + 1])
-            tag = t2.next()
-            if tag == 'OK':
-                n = t2.int()
-                mo = []
-                for _ in range(n):
-                    tg = t2.next()
-                    mo.append(('O', t2.z()) if tg == 'O' else ('G', gl.dec_grad(t2)))
-                if len(mo) != len(out):
-                    ctx.mismatch('rotate1', case, {'model_events': len(mo), 'impl_events': len(out)})
-                    continue
-                for (tg, m), o in zip(mo, out):
-                    if tg == 'G':
-                        if not is_grad(o):
-                            ctx.mismatch('rotate1', case, {'what': 'gradient expected'})
-                            break
-                        d = gl.diff_fields(m, gl.grad_fields(o), info['scale'], 1)
-                        if d:
-                            ctx.mismatch('rotate1', case, d)
-                            break
-                    elif is_grad(o):
-                        ctx.mismatch('rotate1', case, {'what': 'non-gradient expected'})
-                        break
+            if compare_events(ctx, 'rotate1', case, outs[2 * j + 1], out, info['scale']):
                 ctx.count('corr.rotate1.full')
+                continue
+            ctx.count('corr.rotate1.needs_add')
+            # full rotate with add_gradients = the model of property C16 (Model/AddGrad.v through Model/GradBridge.v);
+            # raster-sampled (arbitrary) inputs are left to the rendering comparison above
+            rot_in = [e for e in evs if is_grad(e) and e.channel in info['rest']]
+            if any(e.type == 'grad' and gl.is_arbitrary(e.tt, raster) for e in rot_in):
+                ctx.count('corr.rotatec16.skipped_arbitrary')
             else:
-                ctx.count('corr.rotate1.needs_add')
+                size = sum(4 if e.type == 'trap' else len(e.tt) for e in rot_in)
+                c16_jobs.append((size, len(c16_jobs), case, c16_line, out, info['scale']))
+        run_c16_jobs(ctx, c16_jobs)
+
+
+C16_BUDGET = {'quick': 22.0, 'thorough': 600.0}
+
+
+def run_c16_jobs(ctx, jobs):
+    """The extracted model of add_gradients works on exact binary fractions with unreduced denominators and is slow
+    (0.01-20 s per case): the jobs are run smallest first, one process each, within a time budget per check run."""
+    import subprocess
+    import time
+    import common
+    spent = getattr(ctx, '_c16_spent', 0.0)
+    start = spent
+    for size, _, case, line, out, scale in sorted(jobs, key=lambda j: j[:2]):
+        if spent > C16_BUDGET[ctx.tier] or spent - start > C16_BUDGET[ctx.tier] / 8:
+            ctx.count('corr.rotatec16.not_run_time_budget')
+            continue
+        t0 = time.time()
+        try:
+            o = common.run_model([line], timeout=6, runner=ctx.runner)[0]
+        except subprocess.TimeoutExpired:
+            ctx.count('corr.rotatec16.model_timeout')
+            spent += time.time() - t0
+            continue
+        spent += time.time() - t0
+        ctx.model_cases += 1
+        if compare_events(ctx, 'rotatec16', case, o, out, scale, must=True):
+            ctx.count('corr.rotatec16.full')
+    ctx._c16_spent = spent
+
+
+def compare_events(ctx, stream, case, line, out, scale, must=False):
+    """model output event list vs the implementation's, event by event; False when the model has no result"""
+    t2 = Toks(line)
+    tag = t2.next()
+    if tag != 'OK':
+        if must:
+            ctx.mismatch(stream, case, {'model': line[:80], 'impl_events': len(out)})
+        return False
+    n = t2.int()
+    mo = []
+    for _ in range(n):
+        tg = t2.next()
+        mo.append(('O', t2.z()) if tg == 'O' else ('G', gl.dec_grad(t2)))
+    if len(mo) != len(out):
+        ctx.mismatch(stream, case, {'model_events': len(mo), 'impl_events': len(out)})
+        return True
+    for (tg, m), o in zip(mo, out):
+        if tg == 'G':
+            if not is_grad(o):
+                ctx.mismatch(stream, case, {'what': 'gradient expected'})
+                break
+            d = gl.diff_fields(m, gl.grad_fields(o), scale, 1)
+            if d:
+                ctx.mismatch(stream, case, d)
+                break
+        elif is_grad(o):
+            ctx.mismatch(stream, case, {'what': 'non-gradient expected'})
+            break
+    return True
 
 
 def corpus():
